@@ -619,6 +619,8 @@ Definition cw_parse_literal (s : cw_bytes) : option cw_value :=
 (* digits as the lexer reads them back *)
 Definition cw_norm_digits (l : list N) : list N := map (fun d => d mod 10) l.
 (* a bare identifier that the lexer turns into a keyword token makes the parser fail *)
+(* the keywords of the lexer that the writer does not know (and therefore writes bare): as the regenerated lists stand *)
+Definition cw_lexer_only : list cw_bytes := filter (fun k => negb (cw_mem k cw_writer_keywords)) cw_lexer_keywords.
 Definition cw_key_lexes (k : cw_bytes) : bool :=
   negb (cw_ident_whole k && negb (cw_mem k cw_writer_keywords) && cw_mem k cw_lexer_keywords).
 
